@@ -208,3 +208,91 @@ func init() { propC02.Register() }
 func TestC02_multi(t *testing.T) { propC02.Run(t) }
 
 func FuzzC02_multi(f *testing.F) { propC02.RunFuzz(f) }
+
+// TestC02_exhaustive enumerates the consumption decision space completely for a small scope:
+// 4 element types x (min,max) in {(1,1),(1,2),(1,3),(2,2),(2,3),(3,3)} x first value {detached, attached
+// valid, attached malformed} x every follower sequence of length 0..4 over the token alphabet
+// {valid value, malformed element / range, known flag, "-", "--", command name, unknown option}.
+func TestC02_exhaustive(t *testing.T) {
+	st := evid.New("C02", "exhaustive", "exhaustive small scope: 4 element types x 6 (min,max) pairs x {no attached value, attached valid, attached malformed} x all follower sequences of length 0..4 over {valid value, malformed/range element, known flag, '-', '--', command name, unknown option}; each compared with the reference consumption rule (values, order, remaining, error-ness); non-trivial = max>min and a look-ahead decision was taken, or a map")
+	st.Exhaustive = true
+	defer st.Write()
+	kinds := []Kind{KStringSlice, KIntSlice, KFloatSlice, KStringMap}
+	mm := [][2]int{{1, 1}, {1, 2}, {1, 3}, {2, 2}, {2, 3}, {3, 3}}
+	alphabet := []string{"V", "B", "F", "D", "T", "C", "U"}
+	val := func(k Kind, i int) string {
+		switch k.Elem() {
+		case 'i':
+			return fmt.Sprint(i + 1)
+		case 'f':
+			return fmt.Sprintf("%d.5", i)
+		case 'm':
+			return fmt.Sprintf("k%d=v=%d", i%2, i)
+		}
+		return fmt.Sprintf("s%d", i)
+	}
+	bad := func(k Kind) string {
+		switch k.Elem() {
+		case 'i':
+			return "1..3"
+		case 'f':
+			return "1e"
+		case 'm':
+			return "novalue"
+		}
+		return "cmd2" // strings are never malformed: use a non-command word
+	}
+	var seqs [][]string
+	var rec func(cur []string, n int)
+	rec = func(cur []string, n int) {
+		seqs = append(seqs, append([]string{}, cur...))
+		if n == 0 {
+			return
+		}
+		for _, a := range alphabet {
+			rec(append(cur, a), n-1)
+		}
+	}
+	rec(nil, 4)
+	for _, k := range kinds {
+		for _, m := range mm {
+			spec := &ProgSpec{Root: CmdSpec{Name: "prog", Opts: []OptSpec{{Kind: k, Name: "multi", Min: m[0], Max: m[1]}, {Kind: KBool, Name: "flag"}}, Cmds: []CmdSpec{{Name: "cmd"}}}}
+			for att := 0; att < 3; att++ {
+				for _, sq := range seqs {
+					argv := []string{}
+					switch att {
+					case 0:
+						argv = append(argv, "--multi")
+					case 1:
+						argv = append(argv, "--multi="+val(k, 9))
+					case 2:
+						argv = append(argv, "--multi="+bad(k))
+					}
+					for i, a := range sq {
+						switch a {
+						case "V":
+							argv = append(argv, val(k, i))
+						case "B":
+							argv = append(argv, bad(k))
+						case "F":
+							argv = append(argv, "--flag")
+						case "D":
+							argv = append(argv, "-")
+						case "T":
+							argv = append(argv, "--")
+						case "C":
+							argv = append(argv, "cmd")
+						case "U":
+							argv = append(argv, "--unk")
+						}
+					}
+					c := C02Case{Spec: spec, Argv: argv, Name: "multi", Follow: sq, Attached: []bool{att > 0}}
+					if err := propC02.safeCheck(c, st); err != nil {
+						path := evid.SaveFail("C02", "multi", c, err.Error())
+						t.Fatalf("C02/exhaustive violated: %v\ncase file: %s", err, path)
+					}
+				}
+			}
+		}
+	}
+}
